@@ -52,6 +52,7 @@ func initNormalizationHeader() {
 			// The below can also accept quality values, see RFC 9110
 			"Accept-Encoding",
 			"TE",
+			"Te", // the canonical form of the name, which is what callers pass
 		} {
 			normalizationHeader.byEncoding[field] = struct{}{}
 		}
